@@ -323,7 +323,10 @@ def check_case(case, ctx):
             ctx.fail("no-certificate:%s:%s" % (type(ex).__name__, _culprit(case)), "%s raised %r for sni=%r addr=%r upstream=%r" % (hook, ex, sni, addr, up))
             return
         if sni is not None and c.client.sni != sni:
-            raise HarnessError("mitmproxy read SNI %r, client sent %r" % (c.client.sni, sni))
+            # the certificate is made for what mitmproxy read from the hello: a misread SNI breaks "valid for the identity
+            # the client asked for" (reported, not a harness error)
+            ctx.fail("sni-read-differs-from-sent", "mitmproxy read SNI %r, the client sent %r" % (c.client.sni, sni))
+            return
         der = None
         try:
             der = cl.obj.getpeercert(binary_form=True)
